@@ -58,6 +58,53 @@ func (p *Program) globalTable(g *ssa.Global) *constTab {
 			}
 		}
 	}
+	if n == 0 {
+		// an array variable: initialised element by element in place
+		if pt, ok := g.Type().Underlying().(*types.Pointer); ok {
+			if arr, ok := pt.Elem().Underlying().(*types.Array); ok && arr.Len() <= 16 {
+				vals := make([]string, arr.Len())
+				for i := range vals {
+					vals[i] = "const:0"
+				}
+				okAll := true
+				for _, b := range init.Blocks {
+					for _, in := range b.Instrs {
+						ia, ok := in.(*ssa.IndexAddr)
+						if !ok || ia.X != ssa.Value(g) {
+							continue
+						}
+						ix, isK := ia.Index.(*ssa.Const)
+						if !isK || ia.Referrers() == nil {
+							okAll = false
+							continue
+						}
+						for _, r := range *ia.Referrers() {
+							st, ok := r.(*ssa.Store)
+							if !ok {
+								okAll = false
+								continue
+							}
+							v, ok := constValueCanon(st.Val, 0)
+							if !ok || ix.Int64() < 0 || ix.Int64() >= arr.Len() {
+								okAll = false
+								continue
+							}
+							vals[ix.Int64()] = v
+						}
+					}
+				}
+				if okAll {
+					tab := &constTab{kind: "array"}
+					for i, v := range vals {
+						tab.entries = append(tab.entries, constEntry{key: "const:" + itoa(i), val: v})
+					}
+					p.tabCache[g] = tab
+					return tab
+				}
+			}
+		}
+		return nil
+	}
 	if n != 1 {
 		return nil
 	}
@@ -124,10 +171,55 @@ func (p *Program) globalTable(g *ssa.Global) *constTab {
 		for i, v := range vals {
 			tab.entries = append(tab.entries, constEntry{key: "const:" + itoa(i), val: v})
 		}
+	case *ssa.UnOp:
+		// an array literal built in a temporary and copied into the variable
+		al, ok := x.X.(*ssa.Alloc)
+		if x.Op != token.MUL || !ok || al.Referrers() == nil {
+			return nil
+		}
+		arr, ok := al.Type().Underlying().(*types.Pointer).Elem().Underlying().(*types.Array)
+		if !ok || arr.Len() > 16 {
+			return nil
+		}
+		vals := make([]string, arr.Len())
+		for i := range vals {
+			vals[i] = "const:0"
+		}
+		for _, r := range *al.Referrers() {
+			switch u := r.(type) {
+			case *ssa.IndexAddr:
+				ix, ok := u.Index.(*ssa.Const)
+				if !ok || u.Referrers() == nil {
+					return nil
+				}
+				for _, rr := range *u.Referrers() {
+					st, ok := rr.(*ssa.Store)
+					if !ok {
+						return nil
+					}
+					v, ok := constValueCanon(st.Val, 0)
+					if !ok || ix.Int64() < 0 || ix.Int64() >= arr.Len() {
+						return nil
+					}
+					vals[ix.Int64()] = v
+				}
+			case *ssa.UnOp, *ssa.DebugRef:
+			default:
+				return nil
+			}
+		}
+		tab = &constTab{kind: "array"}
+		for i, v := range vals {
+			tab.entries = append(tab.entries, constEntry{key: "const:" + itoa(i), val: v})
+		}
+		p.tabCache[g] = tab
+		return tab
 	default:
 		return nil
 	}
-	sort.SliceStable(tab.entries, func(i, j int) bool { return tab.entries[i].key < tab.entries[j].key })
+	if tab.kind == "map" {
+		sort.SliceStable(tab.entries, func(i, j int) bool { return tab.entries[i].key < tab.entries[j].key })
+	}
 	p.tabCache[g] = tab
 	return tab
 }
@@ -302,6 +394,27 @@ func mutatedGlobals(p *Program) map[*ssa.Global]bool {
 							loadUse(g, x, 0)
 						}
 					case *ssa.DebugRef:
+					case *ssa.IndexAddr:
+						// element of an array variable: reads only (stores in the initialiser)
+						if x.X != ssa.Value(g) || x.Referrers() == nil {
+							mut[g] = true
+							continue
+						}
+						for _, r := range *x.Referrers() {
+							switch u := r.(type) {
+							case *ssa.UnOp:
+								if u.Op != token.MUL {
+									mut[g] = true
+								}
+							case *ssa.Store:
+								if !isInit || u.Addr != ssa.Value(x) {
+									mut[g] = true
+								}
+							case *ssa.DebugRef:
+							default:
+								mut[g] = true
+							}
+						}
 					default:
 						mut[g] = true // address used otherwise
 					}
